@@ -645,10 +645,16 @@ class SubFieldView(ArrayView):
         return (self.array & self.bit_mask) >> self.lsb
 
     def _do_comparison(self, value, comp):
-        if isinstance(value, (int, type(self.array.dtype))):
+        if isinstance(value, (int, np.integer)):
+            value = int(value)
+            # The field holds values in [0, max_value_allowed], so the
+            # answer is the same for every point when value is out of that range
             if value > self.max_value_allowed:
-                return np.zeros_like(self.array, bool)
-        return comp(self.array & self.bit_mask, value << self.lsb)
+                return np.full(self.array.shape, bool(comp(0, 1)))
+            if value < 0:
+                return np.full(self.array.shape, bool(comp(1, 0)))
+            return comp(self.array & self.bit_mask, value << self.lsb)
+        return comp(self.masked_array(), value)
 
     def __array__(self, *args, **kwargs):
         ret = self.masked_array()
@@ -721,9 +727,14 @@ class ScaledArrayView(ArrayView):
         return np.round((value - self.offset) / self.scale)
 
     def max(self, *args, **kwargs):
+        if self.array.ndim > 1:
+            # each element has its own scale and offset
+            return self.scaled_array().max(*args, **kwargs)
         return self._apply_scale(self.array.max(*args, **kwargs))
 
     def min(self, *args, **kwargs):
+        if self.array.ndim > 1:
+            return self.scaled_array().min(*args, **kwargs)
         return self._apply_scale(self.array.min(*args, **kwargs))
 
     @property
@@ -764,15 +775,15 @@ class ScaledArrayView(ArrayView):
             return self.__class__(self.array[item], self.scale, self.offset)
         else:
             sliced_array = self.array[item]
-            if len(item) == 2:
+            if isinstance(item, tuple) and len(item) == 2:
                 if item[1] is Ellipsis:
                     # item is (index, ...), it queries for all the dimensions
                     # of a point or set of point, so we don't slice the scales/offsets
                     return self.__class__(sliced_array, self.scale, self.offset)
-                elif item[0] is Ellipsis:
-                    # item is something like (..., index)
+                else:
+                    # item is something like (..., index) or (index, index)
                     # it queries for one dimension or set of dimension
-                    # for all the points, so we need to slice the scales/offsets
+                    # of the points, so we need to slice the scales/offsets
                     return self.__class__(
                         sliced_array, self.scale[item[1]], self.offset[item[1]]
                     )
